@@ -740,3 +740,41 @@ def rule_every_line(ctx):
                       "the header line passes through %s before it is parsed: name, unit, value and description no longer come out as "
                       "written (e.g. NFKC turns the unit `µs/ft` into `μs/ft`)" % sorted(cn))
     ctx.floor("HDR.EVERY-LINE", 1)
+
+
+def rule_parser_stateless(ctx):
+    """HDR.PARSER-STATELESS: a SectionParser is configured once per section (__init__); building an item from one line never
+    changes the parser (no store to self.<attr> in metadata / curves / params / num / strip_brackets / __call__), so one line -
+    junk or not - cannot change how the following lines of the section are read"""
+    p = ctx.p
+    cls = p.cls("reader.SectionParser")
+    r = get_resolver(p)
+    n = 0
+    # the per-line side of the class: what __call__ (and the builders it dispatches to) reach; helpers that only __init__ calls
+    # configure the parser and may of course store into it
+    roots = [cls.methods[m_] for m_ in ("__call__", "metadata", "curves", "params") if m_ in cls.methods]
+    per_line = {f_.qual for f_ in r.closure(roots).values() if f_.cls is cls} | {f_.qual for f_ in roots}
+    for m, fi in sorted(cls.methods.items()):
+        if m == "__init__" or fi.qual not in per_line:
+            continue
+        stores = []
+        for sub in walk_shallow(fi.node):
+            if isinstance(sub, (ast.Assign, ast.AugAssign)):
+                for t in (sub.targets if isinstance(sub, ast.Assign) else [sub.target]):
+                    base = t
+                    while isinstance(base, (ast.Attribute, ast.Subscript)):
+                        base = base.value
+                    if isinstance(t, (ast.Attribute, ast.Subscript)) and isinstance(base, ast.Name) and base.id == "self":
+                        stores.append(sub)
+            if isinstance(sub, ast.Call) and isinstance(sub.func, ast.Attribute) and sub.func.attr in ("update", "append", "setdefault", "pop", "clear") \
+                    and ast.unparse(sub.func.value).startswith("self."):
+                stores.append(sub)
+        n += 1
+        site = "%s#no-state-change" % fi.qual
+        if stores:
+            ctx.bad("HDR.PARSER-STATELESS", site, fi, stores[0], "`%s` changes the SectionParser while a line is being built: every later "
+                    "line of the section is read differently because of this one (a junk line can flip value and description of all "
+                    "genuine items after it)" % unparse(stores[0])[:70])
+        else:
+            ctx.ok("HDR.PARSER-STATELESS", site, fi, fi.node, "%s leaves the parser unchanged" % m, nontrivial=m in ("metadata", "curves", "params"))
+    ctx.floor("HDR.PARSER-STATELESS", 3)
